@@ -30,7 +30,7 @@ abbrev Key := String × Ns
 structure Insights where
   watched : List Res
   namespaces : List Ns
-  deriving Repr
+  deriving DecidableEq, Repr
 
 structure Ensemble where
   watchers : List (Key × Nat)   -- `ensemble.watcher_tasks`: key ↦ task (spawn number)
